@@ -13,6 +13,9 @@ Driver commands for C16 (text protocol, one request line -> one answer line).
   np_rmnan <0|1> <k,k,…|-> <dict>          -> dict | unmodelled
   np_mdstep <0|1> <k,k,…|-> <count> <first> <last> <cached dict> <converted dict>
                                            -> dict | raises | unmodelled     (first/last: f<hex> | ! = no such attribute)
+  np_loader <letters>                      -> DataLoader.to_numpy over a dictionary whose entries' own to_numpy() returns (c),
+                                              raises ValueError (v) or raises something else (x): one letter per entry afterwards
+                                              (C converted, k kept as it was) or `raises`, then the number of entries attempted
   np_table <Class>                         -> the (include-expanded) table, for cross-checking the translator
 -/
 import FeVerif.Generated.Numpy
@@ -197,6 +200,18 @@ def cmdMdStep (args : List String) : String :=
     | _, _, _, _, _ => "bad-args"
   | _ => "bad-args"
 
+def cmdLoader (args : List String) : String :=
+  match args with
+  | [letters] =>
+    let es := if letters == "-" then [] else letters.toList
+    if es.any (fun c => c != 'c' && c != 'v' && c != 'x') then "bad-args" else
+    let step : Char → EntryStep Char := fun c => if c == 'c' then .converted 'C' else if c == 'v' then .valueError else .raises
+    let res := match loaderToNumpy step es with
+      | some r => String.ofList (r.map fun c => if c == 'v' then 'k' else c)
+      | none => "raises"
+    s!"{if res.isEmpty then "-" else res} {loaderAttempted step es}"
+  | _ => "bad-args"
+
 end NumpyDrv
 
 def dispatchNumpy (cmd : String) (args : List String) : Option String :=
@@ -205,6 +220,7 @@ def dispatchNumpy (cmd : String) (args : List String) : Option String :=
   | "np_generic" => some (NumpyDrv.cmdGeneric args)
   | "np_rmnan" => some (NumpyDrv.cmdRmNan args)
   | "np_mdstep" => some (NumpyDrv.cmdMdStep args)
+  | "np_loader" => some (NumpyDrv.cmdLoader args)
   | "np_table" => some (NumpyDrv.cmdTable args)
   | _ => none
 
